@@ -11,7 +11,7 @@
     ASCII codes, [valid_callsign] = at most 9 characters of the M17 alphabet; an empty destination means
     broadcast (SpecM17.spec_dst_address).  The order of arguments of the spec functions is (dst, src). *)
 From Coq Require Import NArith ZArith List Bool.
-From M17 Require Import Bits SpecCRC SpecM17 ImplMod ConstsMod LemmasMod_D LemmasMod_E LemmasMod_G LemmasMod_H.
+From M17 Require Import Bits SpecCRC SpecM17 ImplMod ConstsMod LemmasMod_D LemmasMod_E LemmasMod_G LemmasMod_H LemmasMod_I.
 Import ListNotations.
 Local Open Scope N_scope.
 
@@ -147,6 +147,26 @@ Theorem c13_mod_baseband_continuity_as_built :
   if mod_filter_per_instantiation then ~ continuity_statement true else continuity_statement false.
 Proof. exact continuity_as_built. Qed.
 Print Assumptions c13_mod_baseband_continuity_as_built.
+
+(** 5e. every sample fits int16_t, for all inputs, both polarities, shared filter or not: the (int16_t)(double)
+        conversion, which the model renders as truncation toward zero, never leaves its defined range
+        (for any symbols in [-3,3]: 7168 * 3 * max over the ten phases of sum |taps| < 32768) *)
+Theorem c13_mod_baseband_fits_int16 :
+  forall (uninit : list bool) (cstate : Type) (codec2_encode : cstate -> list Z -> cstate * list N),
+  codec_ok codec2_encode ->
+  forall (per invert : bool) (audio0 : list Z) (cs0 : cstate) (can : N) (src dest : list N) (samples : list Z),
+  valid_callsign src -> valid_callsign dest -> can < 16 -> length audio0 = 320%nat ->
+  Forall (fun y => (-32768 <= y <= 32767)%Z)
+         (run_mod_baseband_gen uninit cstate codec2_encode per invert audio0 cs0 can src dest samples).
+Proof. exact baseband_fits_int16. Qed.
+Print Assumptions c13_mod_baseband_fits_int16.
+
+(** 5f. reading aid for [spec_baseband]: the accumulator form used there is the convolution sum
+        y[n] = sum_k taps[k] * u[n-k] ([ideal_sample]) *)
+Theorem c13_ideal_response_is_convolution_sum : forall (taps u : list Z) (n : nat), (n < length u)%nat ->
+  nth n (ideal_response taps u) 0%Z = ideal_sample taps u n.
+Proof. exact ideal_response_nth. Qed.
+Print Assumptions c13_ideal_response_is_convolution_sum.
 
 (** non-vacuity *)
 Example c13_callsigns_valid :
